@@ -41,6 +41,7 @@ CONST_ITEMS = [
     ("FLUSH_NUM", "compio-io/src/buffer.rs", r"^\s*len > cap \* (\d+) / \d+\s*$"),
     ("FLUSH_DEN", "compio-io/src/buffer.rs", r"^\s*len > cap \* \d+ / (\d+)\s*$"),
     ("FRAMED_RESERVE", "compio-io/src/framed/read.rs", r"\.reserve\((\d+)\)"),
+    ("NOOP_MAX_SIZE", "compio-io/src/framed/frame.rs", r"^\s*Self \{ max_size: (\d+) \}"),
 ]
 
 
